@@ -28,6 +28,7 @@ func Release(p *load.Program) {
 	declMu.Lock()
 	delete(declCache, p)
 	declMu.Unlock()
+	authTests = map[*ssa.Function]authTest{}
 	p.Release()
 }
 
